@@ -33,8 +33,10 @@ def exhaustive(tier):
 
 
 def required(tier):
-    return ["hint<governing", "hint==governing", "hint==governing+1", "hint==len-1>governing", "hint>=len", "disorder:returned",
-            "disorder:ValueError", "swap_inside_one_segment_returned", "later_segment_then_segment0_raised", "contract_evaluated"] + \
+    # classes name what the WORKLOAD constructed, not how the implementation answered (an implementation that sorts lines
+    # first never raises on disorder and still satisfies the property)
+    return ["hint<governing", "hint==governing", "hint==governing+1", "hint==len-1>governing", "hint>=len",
+            "directed:swap_inside_one_segment", "directed:later_segment_then_segment0", "contract_evaluated"] + \
            [f"disordered:{k}" for k in KINDS]
 
 
@@ -195,6 +197,10 @@ def build_disordered(rng, kind, mode, directed=None):
 
 def judge_disordered(rec, text, kind, mode, directed=None):
     case = {"kind": "disorder", "text": text, "event_kind": kind, "mode": mode}
+    if directed == "same_segment":
+        rec.cls("directed:swap_inside_one_segment")
+    elif directed == "later_then_first":
+        rec.cls("directed:later_segment_then_segment0")
     contracts.drain()
     out = harness.parse(text)
     rec.ev()
